@@ -28,7 +28,25 @@ var commonAssumptions = []string{
 	"gorilla/websocket, net/http, crypto/tls run unmodified; TCP is a reliable FIFO byte stream with the listed faults",
 }
 
+var ship1Real = []string{"ship.ShipConnection (one endpoint, either role) incl. its timer goroutines", "model", "EEBUS JSON transform"}
+var ship1Stub = []string{"transport below SHIP (stub writer: records frames, can fail the k-th write)", "info provider / hub (stub: trust configuration, records callbacks)", "peer (scripted from literal SHIP 1.0.1 frames: cooperative replies + deviant alphabet)", "user (approve / cancel / close / revoke task)"}
+
 var props = map[string]PropMeta{
+	"C08": {
+		Level: "exploration",
+		Rule: "three engines per draw: (ship) up to 40 peer events with 50% deviant frames of 12 mutation classes delivered in whatever handshake state the valid prefix reached, both roles, all trust configurations; (ws) up to 12 websocket frames of every opcode and length 0..70000, fragmented, close codes, raw invalid framing, SHIP frames that provoke replies, optionally with a peer that never reads; (mdns) up to 10 resolver callbacks with mutated TXT maps, nil/odd address lists, ports -1..70000, adds and removes; each x seeded schedules; " +
+			"non-trivial = all runs (every run delivers peer-controlled input); distinct = distinct sets of (state at delivery, input class) / frame classes",
+		Real:   []string{"ship.ShipConnection", "ws.WebsocketConnection + gorilla/websocket (ws engine)", "mdns.MdnsManager entry processing (mdns engine)"},
+		Stub:   []string{"transport stub (ship engine) / simnet.Conn (ws engine)", "info provider", "scripted peer", "mDNS provider (null provider handing out the resolver callback)"},
+		QuickS: 25, ThoroughS: 480, QuickWorkers: 6,
+	},
+	"C01": {
+		Level: "exploration",
+		Rule: "one run = role x trust configuration (paired/auto/none, waiting allowed or not) x peer hello mode x user plan (approve/cancel/revoke at a drawn event) x up to 32 peer events drawn from {cooperative next frame, deviant frame of 12 classes, SPINE data, clock advance 1ms..120s, transport error, close announce} x seeded interleaving of pump, user and timer tasks; " +
+			"non-trivial = the connection reached pending-listen (a trust decision was actually open); distinct = distinct sets of (state at delivery, input class) plus configuration",
+		Real: ship1Real, Stub: ship1Stub,
+		QuickS: 20, ThoroughS: 420, QuickWorkers: 6,
+	},
 	"C13": {
 		Level: "fault_enumeration",
 		Rule: "a scripted session (5 data frames each way around one ping/pong round) is run fault-free to count the transport reads R and writes W; then one run per variant: k-th read fails (k=1..R+2), k-th write fails (k=1..W+2), peer close frame with each of 7 codes, peer EOF, reset, local close with/without reason - each variant x seeded schedules; " +
